@@ -14,7 +14,10 @@ Search on the implementation (always): the property's laws are evaluated on the 
 round trips, bracket bounds, exp(log-density) = density, log-cdf = log(cdf), closed forms and
 normalisation against mpmath at 50 digits, mean/variance by summation/quadrature, `params_mv` round
 trips, ISI re-integration, metric laws of the spike-train distance — so that a property-breaking
-change yields a concrete failing input.  The integral / partial-sum sub-claims (CDF = ∫ pdf, Poisson
+change yields a concrete failing input.  The distribution laws are also evaluated the way a caller evaluates them: ONE support grid
+(and one set of parameter tensors) handed to a whole sequence of helpers (section 2b, `shared_argument_histories`), so a helper
+that answers correctly once but disturbs what the next helper sees (arguments overwritten, views / expanded / grad-requiring
+supports rejected) is reported with the history as the failing input.  The integral / partial-sum sub-claims (CDF = ∫ pdf, Poisson
 CDF = Σ pmf, LogNormal moments) are theorems of `Props/C20Int.lean` about `realSpecial` (erf and the incomplete
 gamma function as integrals); they are ALSO run numerically on the real code (`integral_subclaims_run_on_real_code`),
 which is what ties torch's opaque special functions to those definitions.
@@ -1380,7 +1383,11 @@ def explore(ctx) -> Exploration:
         "incl. λ=0, k=0, σ from 1e-3 to 50, tails to ±9σ, plus seeded random parameters; ISI: ALL rasters with T≤6 (thorough 7) and 1–2 trains, "
         "time-first and time-last, plus random rasters up to 6×14; Victor–Purpura: all pairs (and triples for the triangle inequality) of spike-time "
         "vectors of length ≤3 from a half-integer grid plus coincident/unsorted trains, costs {0,1/4,1/2,1,2,3,inf}, float and tensor cost, plus random "
-        "longer trains. A case is non-trivial when it exercises a distinct input tuple; evaluations count individual comparisons "
+        "longer trains; shared-argument histories: per distribution, the SAME support / parameter tensor objects (own tensor, strided view, "
+        "expanded 0-d, 0-d against parameter vectors; python-scalar, 0-d and same-shape parameter tensors; float64 / float32; optionally "
+        "requiring grad) are handed to two shuffled passes over every helper, each result judged against the closed form at the original "
+        "grid, a twin call on fresh copies, and the exp/log, log-cdf, quadrature-to-cdf, normalisation, moment and d cdf/dx = pdf laws "
+        "between the results. A case is non-trivial when it exercises a distinct input tuple; evaluations count individual comparisons "
         "(differential, law on real code, metric law on a pair/triple).")
     ex.samples = [C.lines[0], C.lines[len(C.lines) // 3], C.lines[2 * len(C.lines) // 3], C.lines[-1]]
     ex.extra["driver_requests"] = len(C.lines)
